@@ -49,6 +49,8 @@ type Case struct {
 	// behind by earlier loads (a package-level cache, say) reproduces in a fresh process. Minimisation drops
 	// whatever part of it is not needed.
 	Prelude []Case `json:"prelude,omitempty"`
+	// Env: environment variables (of those the code under test reads) set around this case.
+	Env map[string]string `json:"env,omitempty"`
 }
 
 var fixedMtime = time.Unix(1_000_000_000, 0)
@@ -462,6 +464,7 @@ func whyKind(why string) string {
 
 // Check18 evaluates the C18 oracle on one case. It returns the violations found (at most one).
 func Check18(c *Case, env *Env) []verdict {
+	defer evid.ApplyEnv(c.Env)()
 	m, o := load(c, env)
 	st := env.Stats
 	if st != nil {
@@ -598,6 +601,7 @@ func Check18(c *Case, env *Env) []verdict {
 
 // Check12 evaluates the C12 oracle on one case.
 func Check12(c *Case, env *Env) []verdict {
+	defer evid.ApplyEnv(c.Env)()
 	m, o := load(c, env)
 	st := env.Stats
 	if st != nil {
